@@ -10,7 +10,7 @@ import os
 import re
 
 from vf.extract import extract_item
-from vf.unit import Unit
+from vf.unit import Unit, normalize_let_chains, normalize_while_let_some_ref, arm_bounds
 
 HERE = os.path.dirname(os.path.abspath(__file__))
 
@@ -136,29 +136,51 @@ def build():
     IMPL = r'impl ConnectDsu'
 
     f = u.extract(D, IMPL, 'find', 'ConnectDsu::find')
-    f.rewrite('R4', 'while let Some(&p) = self.parents.get(&root) { if p == root { break; } root = p; }',
-              'loop { match self.parents.get(&root) { Some(p_) => { let p = *p_; if p == root { break; } root = p; } None => { break; } } }')
-    f.rewrite('R4', 'while let Some(&p) = self.parents.get(&v) { if p == root { break; } self.parents.insert(v, root); v = p; }',
-              'loop { let cur_ = match self.parents.get(&v) { Some(p_) => Some(*p_), None => None }; match cur_ { Some(p) => { if p == root { break; } self.parents.insert(v, root); v = p; } None => { break; } } }')
+    normalize_while_let_some_ref(f)
     f.requires('forest', 'old(self).inv()')
     f.ensures('returns_the_class_representative', 'ret == old(self).rep(x)')
     f.ensures('path_compression_keeps_the_abstract_state', 'final(self).inv() && final(self).same_classes(old(self)) && final(self).in_connect == old(self).in_connect && final(self).root_to_widx == old(self).root_to_widx')
-    f.at_start('''let ghost rw0 = self.parents@;
+    f.at_start("""let ghost rw0 = self.parents@;
         let ghost (stamp, bound) = choose|stamp: Map<ExprId, nat>, bound: nat| stamped(rw0, stamp, bound);
-        let ghost mut steps: nat = 0;''')
+        let ghost mut steps: nat = 0;""")
+    # ---- pass 2 first (later text first): structural anchors = arm start / arm end of the generated `Some(p) => { .. }`
+    o2, c2 = arm_bounds(f, 'Some(p) => {', nth=1)
+    f.body = (f.body[:o2 + 1] + """ let ghost cur_b = self.parents@; let ghost v_b = v;
+                proof {
+                    assert(rw0.dom().contains(v) && rw0[v] == p);
+                    assert(stamp[v] < bound);
+                    if rw0.dom().contains(p) { assert(stamp[v] < stamp[rw0[v]]); }
+                } """ + f.body[o2 + 1:c2] + """ proof {
+                    // the arm compressed v_b onto the root and moved on to its old parent
+                    assert(self.parents@ == cur_b.insert(v_b, root)); // @@A:compression_redirects_the_node_to_its_own_root
+                    assert(v == p); // @@A:walk_follows_the_old_parent
+                    lemma_root_total(cur_b, v_b);
+                    assert(rootf(cur_b, v_b) == root);
+                    assert(v_b != root);
+                    lemma_compress(cur_b, v_b, root);
+                    lemma_iter_step(rw0, x, vsteps); vsteps = vsteps + 1;
+                    lemma_root_total(rw0, p);
+                    let np = choose|n: nat| iter(rw0, p, n) == rootf(rw0, p);
+                    reveal_with_fuel(iter, 2);
+                    assert(iter(rw0, v_b, np + 1) == rootf(rw0, p));
+                    lemma_root(rw0, v_b, rootf(rw0, p));
+                } """ + f.body[c2:])
+    o1, c1 = arm_bounds(f, 'Some(p) => {', nth=0)
+    f.body = (f.body[:o1 + 1] + """ let ghost root_b = root;
+                proof {
+                    assert(rw0.dom().contains(root) && rw0[root] == p);
+                    assert(stamp[root] < bound);
+                    if rw0.dom().contains(p) { assert(stamp[root] < stamp[rw0[root]]); }
+                    assert(p != root);   // a self loop is impossible in an acyclic forest
+                } """ + f.body[o1 + 1:c1] + """ proof {
+                    assert(root == p); // @@A:walk_follows_the_parent_pointer
+                    lemma_iter_step(rw0, x, steps); steps = steps + 1;
+                } """ + f.body[c1:])
     f.loop('loop {', invariant_except_break=[
         ('on_chain', 'self.parents@ == rw0 && stamped(rw0, stamp, bound) && iter(rw0, x, steps) == root && *self == *old(self)'),
     ], ensures=[
         ('pass1', 'self.parents@ == rw0 && *self == *old(self) && root_of(rw0, x, root)'),
     ], decreases='if rw0.dom().contains(root) { bound - stamp[root] } else { 0 }', nth=0)
-    f.before('if p == root { break; } root = p;', '''proof {
-                    assert(rw0.dom().contains(root) && rw0[root] == p);
-                    assert(stamp[root] < bound);
-                    if rw0.dom().contains(p) { assert(stamp[root] < stamp[rw0[root]]); }
-                    // a self loop is impossible in an acyclic forest
-                    assert(p != root);
-                    lemma_iter_step(rw0, x, steps); steps = steps + 1;
-                }''')
     f.before('let mut v = x;', 'proof { lemma_root(rw0, x, root); assert(acyclic(rw0)); } let ghost mut vsteps: nat = 0;')
     f.loop('loop {', invariant_except_break=[
         ('compressed', 'acyclic(self.parents@) && (forall|y: ExprId| #[trigger] rootf(self.parents@, y) == rootf(rw0, y)) && self.in_connect == old(self).in_connect && self.root_to_widx == old(self).root_to_widx'),
@@ -168,33 +190,33 @@ def build():
     ], ensures=[
         ('pass2', 'acyclic(self.parents@) && (forall|y: ExprId| #[trigger] rootf(self.parents@, y) == rootf(rw0, y)) && self.in_connect == old(self).in_connect && self.root_to_widx == old(self).root_to_widx'),
     ], decreases='if rw0.dom().contains(v) { bound - stamp[v] } else { 0 }', nth=1)
-    f.before('if p == root { break; } self.parents.insert(v, root);', '''proof {
-                    assert(rw0.dom().contains(v) && rw0[v] == p);
-                    assert(stamp[v] < bound);
-                    if rw0.dom().contains(p) { assert(stamp[v] < stamp[rw0[v]]); }
-                }''')
-    f.before('self.parents.insert(v, root); v = p;', '''proof {
-                    let cur = self.parents@;
-                    lemma_root_total(cur, v);
-                    assert(rootf(cur, v) == root);
-                    assert(v != root);
-                    lemma_compress(cur, v, root);
-                    lemma_iter_step(rw0, x, vsteps); vsteps = vsteps + 1;
-                    // rootf(rw0, p) == rootf(rw0, v)
-                    lemma_root_total(rw0, p);
-                    let np = choose|n: nat| iter(rw0, p, n) == rootf(rw0, p);
-                    reveal_with_fuel(iter, 2);
-                    assert(iter(rw0, v, np + 1) == rootf(rw0, p));
-                    lemma_root(rw0, v, rootf(rw0, p));
-                }''')
     f.bind_tail('r_', 'proof { assert(self.same_classes(old(self))); }')
 
     un = u.extract(D, IMPL, 'union', 'ConnectDsu::union')
     un.requires('forest', 'old(self).inv()')
     un.ensures('merges_exactly_the_two_classes', '''final(self).inv() && final(self).in_connect == old(self).in_connect && final(self).root_to_widx == old(self).root_to_widx
             && forall|x: ExprId| #[trigger] final(self).rep(x) == (if old(self).rep(x) == old(self).rep(b) { old(self).rep(a) } else { old(self).rep(x) })''')
-    un.before('if ra != rb {', 'let ghost mid = *self; proof { lemma_root_total(self.parents@, a); lemma_root_total(self.parents@, b); }')
-    un.before('self.parents.insert(rb, ra);', 'proof { lemma_union(self.parents@, rb, ra); }')
+    un.at_start('let ghost s0 = *self; let ghost p0 = self.parents@;')
+    un.before('let rb = self.find(b);', 'let ghost s1 = *self; let ghost p1 = self.parents@;')
+    un.before('if ra != rb {', """let ghost s2 = *self; let ghost p2 = self.parents@;
+        proof {
+            // a representative is a non-key of the forest it was computed in, and stays one under path compression
+            lemma_root_total(p0, a); lemma_root_outside(p0, ra);
+            lemma_root_total(p1, b); lemma_root_outside(p1, rb);
+            assert(s1.rep(ra) == s0.rep(ra)); assert(s2.rep(ra) == s1.rep(ra)); assert(s2.rep(rb) == s1.rep(rb));
+            lemma_root_total(p2, ra); lemma_root_total(p2, rb);
+            assert(!p2.dom().contains(ra) && !p2.dom().contains(rb));
+            assert(s1.rep(b) == s0.rep(b));
+            assert forall|x: ExprId| #[trigger] s2.rep(x) == s0.rep(x) by { assert(s2.rep(x) == s1.rep(x)); assert(s1.rep(x) == s0.rep(x)); }
+        }""")
+    un.at_end("""proof {
+            if ra != rb { assert(self.parents@ == p2.insert(rb, ra)); // @@A:second_root_attached_under_the_first
+                lemma_union(p2, rb, ra); } else { assert(self.parents@ == p2); }
+            assert forall|x: ExprId| #[trigger] self.rep(x) == (if s0.rep(x) == s0.rep(b) { s0.rep(a) } else { s0.rep(x) }) by {
+                assert(s2.rep(x) == s0.rep(x));
+                if ra != rb { assert(rootf(p2.insert(rb, ra), x) == (if rootf(p2, x) == rb { ra } else { rootf(p2, x) })); }
+            }
+        }""")
 
     cw = u.extract(D, IMPL, 'class_witness', 'ConnectDsu::class_witness')
     cw.rewrite('R6', 'self.root_to_widx.get(&root).copied()', '(match self.root_to_widx.get(&root) { Some(w_) => Some(*w_), None => None })')
@@ -206,20 +228,21 @@ def build():
     aw.rewrite('R6', '*self .root_to_widx .entry(root) .or_insert_with(|| alloc.alloc())',
                '(match self.root_to_widx.get(&root) { Some(w_) => *w_, None => { let w_ = alloc.alloc(); self.root_to_widx.insert(root, w_); w_ } })')
     aw.requires('forest', 'old(self).inv()')
-    aw.ensures('class_slot_shared_or_fresh', '''({ let s0 = old(self); let r = s0.rep(expr_id); let member = s0.in_connect@.contains(expr_id);
-            &&& final(self).inv() && final(self).same_classes(s0) && final(self).in_connect == s0.in_connect
-            &&& (member && s0.root_to_widx@.dom().contains(r) ==> ret == s0.root_to_widx@[r] && final(self).root_to_widx@ == s0.root_to_widx@ && final(alloc).next == old(alloc).next)
-            &&& (member && !s0.root_to_widx@.dom().contains(r) ==> ret.0 == old(alloc).next && final(self).root_to_widx@ == s0.root_to_widx@.insert(r, ret) && final(alloc).next == old(alloc).next + 1)
-            &&& (!member ==> ret.0 == old(alloc).next && final(self).root_to_widx@ == s0.root_to_widx@ && final(alloc).next == old(alloc).next + 1)
-        })''')
+    aw.at_start('let ghost s0 = *self; let ghost mut s1 = *self;')
+    aw.after('let root = self.find(expr_id);', 'proof { s1 = *self; }')
+    aw.bind_tail('r_', 'proof { assert(self.parents@ == s1.parents@); assert forall|x: ExprId| #[trigger] self.rep(x) == s0.rep(x) by { assert(s1.rep(x) == s0.rep(x)); } }')
+    MEM = 'old(self).in_connect@.contains(expr_id)'
+    RR = 'old(self).rep(expr_id)'
+    aw.ensures('abstract_state', 'final(self).inv() && final(self).same_classes(old(self)) && final(self).in_connect == old(self).in_connect')
+    aw.ensures('class_slot_shared', f'{MEM} && old(self).root_to_widx@.dom().contains({RR}) ==> ret == old(self).root_to_widx@[{RR}] && final(self).root_to_widx@ == old(self).root_to_widx@ && final(alloc).next == old(alloc).next')
+    aw.ensures('class_slot_fresh_on_first_access', f'{MEM} && !old(self).root_to_widx@.dom().contains({RR}) ==> ret.0 == old(alloc).next && final(self).root_to_widx@ == old(self).root_to_widx@.insert({RR}, ret) && final(alloc).next == old(alloc).next + 1')
+    aw.ensures('non_member_gets_a_fresh_slot', f'!{MEM} ==> ret.0 == old(alloc).next && final(self).root_to_widx@ == old(self).root_to_widx@ && final(alloc).next == old(alloc).next + 1')
 
     S = 'circuit/src/builder/compiler/lowerer/state.rs'
     bf = u.extract(S, r"impl<'a, F: Field> LoweringState<'a, F>", 'backfill_connect_mappings', 'backfill_connect_mappings')
     bf.set_sig('R11', 'fn backfill_connect_mappings(&mut self)')
     bf.rewrite('R6', 'let connected: Vec<ExprId> = self.dsu.connected_exprs().collect();', 'let connected: Vec<ExprId> = self.dsu.connected_vec();')
-    bf.rewrite_re('R4', r'if !self\.expr_to_widx\.contains_key\(&expr_id\)\s*&& let Some\(widx\) = self\.dsu\.class_witness\(expr_id\)\s*\{',
-                  'if !self.expr_to_widx.contains_key(&expr_id) { if let Some(widx) = self.dsu.class_witness(expr_id) {', min_count=1)
-    bf.rewrite_re('R4', r'(self\.expr_to_widx\.insert\(expr_id, widx\);\s*\})', r'\1 }', min_count=1)
+    normalize_let_chains(bf)
     bf.rewrite('SPEC-iter-name', 'for expr_id in connected {', 'for expr_id in it: connected {')
     bf.requires('forest', 'old(self).dsu.inv()')
     bf.ensures('result_is_a_function_of_the_views_whatever_the_iteration_order',
@@ -235,12 +258,24 @@ def build():
     bf.at_loop_end('for expr_id in it: connected', '''proof {
                 let k = it.index@ as int;
                 let done0 = connected@.take(k).to_set(); let done1 = connected@.take(k + 1).to_set();
+                assert(expr_id == connected@[k]);
                 assert(connected@.take(k + 1) =~= connected@.take(k).push(expr_id));
+                assert forall|e: ExprId| #[trigger] done1.contains(e) <==> (done0.contains(e) || e == expr_id) by {
+                    if done1.contains(e) {
+                        let t1 = connected@.take(k + 1); let j = choose|j: int| 0 <= j < t1.len() && #[trigger] t1[j] == e;
+                        if j < k { assert(connected@.take(k)[j] == e); assert(connected@.take(k).contains(e)); }
+                    }
+                    if done0.contains(e) {
+                        let t0 = connected@.take(k); let j = choose|j: int| 0 <= j < t0.len() && #[trigger] t0[j] == e;
+                        assert(connected@.take(k + 1)[j] == e); assert(connected@.take(k + 1).contains(e));
+                    }
+                    if e == expr_id { assert(connected@.take(k + 1)[k] == e); assert(connected@.take(k + 1).contains(e)); }
+                }
                 assert(done1 =~= done0.insert(expr_id));
                 assert(!done0.contains(expr_id)) by {
-                    if done0.contains(expr_id) { let j = choose|j: int| 0 <= j < k && connected@.take(k)[j] == expr_id; assert(connected@[j] == connected@[k]); }
+                    if done0.contains(expr_id) { let t0 = connected@.take(k); let j = choose|j: int| 0 <= j < t0.len() && #[trigger] t0[j] == expr_id; assert(connected@[j] == connected@[k]); }
                 }
-                assert(self.expr_to_widx@ =~= backfilled(m0, done1, |e: ExprId| d0.rep(e), slots));
+                assert(self.expr_to_widx@ =~= backfilled(m0, done1, |e: ExprId| d0.rep(e), slots)); // @@A:one_member_processed_like_the_view_function_says
             }''')
     bf.at_end('proof { assert(connected@.take(connected@.len() as int) =~= connected@); }')
 
